@@ -135,6 +135,16 @@ def run(ctx):
         r = random.Random(f"{ctx.seed}/c06/bytes/{i}")
         raw = bytes(r.choice([0xff, 0xfe, 0xc3, 0x28, 0x80, 0x41, 0x7b, 0x7d, 0x3b, 0x0a, 0x65, 0x3d]) for _ in range(r.choice([1, 4, 20])))
         todo.append({"files": {"/w/m.djinni": {"bytes_hex": raw.hex()}}, "root": "/w/m.djinni", "stream": "bytes", "mut": "raw-bytes"})
+    # @extern files that are not text / not valid external-type YAML
+    for i in range(ctx.n(8, 60)):
+        r = random.Random(f"{ctx.seed}/c06/extern/{i}")
+        raw = bytes(r.choice([0xff, 0xfe, 0x80, 0x6e, 0x61, 0x3a, 0x20, 0x0a, 0x2d]) for _ in range(r.choice([2, 8, 30])))
+        try:
+            raw.decode("utf-8")
+            body = {"raw": raw.decode("utf-8")}
+        except UnicodeDecodeError:
+            body = {"bytes_hex": raw.hex()}
+        todo.append({"files": {"/w/m.djinni": '@extern "e.yaml"\nr = record { a: i32; }', "/w/e.yaml": body}, "root": "/w/m.djinni", "stream": "extern-bytes", "mut": "extern-bytes"})
     # import graphs (cycles, diamonds, '..' spellings across directories) — termination with imports
     import props.c16 as c16
     for i in range(ctx.n(60, 600)):
